@@ -18,6 +18,7 @@ CONSTANTS Templates, Export
 Space(t) == CASE t = "branch" -> Branch [] t = "loop" -> LoopP [] t = "nested" -> Nested
               [] t = "straight" -> Straight [] t = "call" -> CallP [] t = "rec" -> RecP
               [] t = "closure" -> Closure [] t = "loopbranch" -> LoopBranch [] t = "rangebranch" -> RangeBranch [] t = "strbranch" -> StrBranch
+              [] t = "sharedcmp" -> SharedCmp [] t = "fltbranch" -> FltBranch [] t = "extract" -> Extract
               [] OTHER -> BigConst
 Programs == UNION {Space(t) : t \in Templates}
 
@@ -41,6 +42,9 @@ RefactorPreserves ==
 \* one-hole edits and the invalid refactoring
 Neighbours(p) == (UNION {{[p EXCEPT ![h] = v] : v \in Alt(p, h)} : h \in Holes(p)}) \ {p}
 BadSwap(p) == WithPres(p, [commute |-> FALSE, flip |-> FALSE, badswap |-> TRUE])
+\* the invalid flip: a test whose result has a second use (sharedcmp) / a float test (fltbranch: NaN)
+BadFlip(p) == WithPres(p, [commute |-> FALSE, flip |-> TRUE, badswap |-> FALSE])
+HasBadFlip(p) == p.tpl \in {"sharedcmp", "fltbranch"}
 
 Edge(p, q, kind) ==
   LET same == SameBehaviour(p, q) IN
@@ -49,6 +53,7 @@ Edge(p, q, kind) ==
 
 EdgesOf(p) ==
   {Edge(p, q, "edit") : q \in Neighbours(p)} \cup {Edge(p, BadSwap(p), "badswap")}
+    \cup (IF HasBadFlip(p) THEN {Edge(p, BadFlip(p), "badflip")} ELSE {})
     \cup {Edge(p, WithPres(p, pr), "refactor") : pr \in {x \in RefPres : Applicable(p, x)}}
 
 OutsOf(p) == LET q == InSeq(p) IN [k \in DOMAIN q |-> [a |-> q[k][1], b |-> q[k][2], r |-> Eval(p, q[k][1], q[k][2])]]
